@@ -227,6 +227,27 @@ func fF(v reflect.Value, name string) uint64 {
 	return f64bits(f.Float())
 }
 
+// heapPair: the (name, count) pair of a two-field struct, by the KIND of the fields (their order and
+// names are private to the library)
+func heapPair(e reflect.Value) heapDoc {
+	var d heapDoc
+	for i := 0; i < e.NumField(); i++ {
+		switch f := e.Field(i); f.Kind() {
+		case reflect.String:
+			d.V = f.String()
+		case reflect.Slice:
+			if f.Type().Elem().Kind() == reflect.Uint8 {
+				d.V = string(f.Bytes())
+			}
+		case reflect.Uint, reflect.Uint64, reflect.Uint32:
+			d.F = f.Uint()
+		case reflect.Int, reflect.Int64:
+			d.F = uint64(f.Int())
+		}
+	}
+	return d
+}
+
 func fU64s(f reflect.Value) []uint64 {
 	if !f.IsValid() {
 		return nil
@@ -364,7 +385,7 @@ func jtState(n *jtNames, kind string, o interface{}) (state string, newIDs strin
 		h := make([]heapDoc, 0)
 		if hp.IsValid() {
 			for i := 0; i < hp.Len(); i++ {
-				h = append(h, heapDoc{V: hp.Index(i).Field(0).String(), F: hp.Index(i).Field(1).Uint()})
+				h = append(h, heapPair(hp.Index(i)))
 			}
 		}
 		return fmt.Sprintf("%d %d %d %s %s", fU(v, "k"), fF(v, "errorRate"), fF(v, "accuracy"), cmsMemTok(fld(v, "sketch")), heapImgStr(h)), ""
